@@ -2548,9 +2548,17 @@ providedBy(PyObject* module, PyObject* ob)
     _zic_module_state* rec = _zic_state(module);
     specification_base_class = rec->specification_base_class;
 #endif
-    if (PyObject_TypeCheck(result, specification_base_class) ||
-        PyObject_HasAttrString(result, "extends"))
+    if (PyObject_TypeCheck(result, specification_base_class))
         return result;
+    cp = PyObject_GetAttrString(result, "extends");
+    if (cp != NULL) {
+        Py_DECREF(cp);
+        return result;
+    }
+    Py_DECREF(result);
+    if (!PyErr_ExceptionMatches(PyExc_AttributeError))
+        return NULL; /* Propagate non-AttributeErrors */
+    PyErr_Clear();
 
     /*
       The object's class doesn't understand descriptors.
@@ -2558,23 +2566,38 @@ providedBy(PyObject* module, PyObject* ob)
       careful.  We want to use the instance's __provides__,l if
       there is one, but only if it didn't come from the class.
     */
-    Py_DECREF(result);
-
-    cls = PyObject_GetAttr(ob, str__class__);
-    if (cls == NULL)
-        return NULL;
-
     result = PyObject_GetAttr(ob, str__provides__);
     if (result == NULL) {
+        if (!PyErr_ExceptionMatches(PyExc_AttributeError))
+            return NULL;
         /* No __provides__, so just fall back to implementedBy */
         PyErr_Clear();
+        cls = PyObject_GetAttr(ob, str__class__);
+        if (cls == NULL)
+            return NULL;
         result = implementedBy(module, cls);
         Py_DECREF(cls);
         return result;
     }
 
+    cls = PyObject_GetAttr(ob, str__class__);
+    if (cls == NULL) {
+        if (!PyErr_ExceptionMatches(PyExc_AttributeError)) {
+            Py_DECREF(result);
+            return NULL;
+        }
+        /* The ob doesn't have a class, assume we're done: */
+        PyErr_Clear();
+        return result;
+    }
+
     cp = PyObject_GetAttr(cls, str__provides__);
     if (cp == NULL) {
+        if (!PyErr_ExceptionMatches(PyExc_AttributeError)) {
+            Py_DECREF(cls);
+            Py_DECREF(result);
+            return NULL;
+        }
         /* The the class has no provides, assume we're done: */
         PyErr_Clear();
         Py_DECREF(cls);
